@@ -193,7 +193,7 @@ class Adapter:
     def e_SliceIndexNode(self,n,ctx):
         f=lambda x: None if x is None else self.expr(x)
         return ast.Subscript(self.expr(n.base), ast.Slice(f(n.start), f(n.stop), None), ctx)
-    def e_CondExprNode(self,n,ctx): return ast.IfExp(self.expr(n.test), self.expr(n.true_val), self.expr(n.false_val))
+    def e_CondExprNode(self,n,ctx): return ast.IfExp(self.expr(getattr(n,'condition',None) or n.test), self.expr(n.true_val), self.expr(n.false_val))
 
 def pyx_text_to_ast(text, name='x.pyx'):
     tree=parse_pyx_text(text, name); ad=Adapter()
